@@ -125,6 +125,11 @@ func exhaustiveGS(depth int, wide bool) [][]string {
 			alphabet = append(alphabet, runWith("closeat", strconv.Itoa(k), "ca", "certs:2:2"))
 		}
 	}
+	// several requests for one key: every reply shape at every position
+	for _, ca := range []string{"panic", "err", "certs:1:1|panic", "certs:1:1|err", "certs:1:1|certs:1:1", "certs:1:1|plain", "certs:1:1"} {
+		alphabet = append(alphabet, runWith("hs", "gkey:2:-:0", "ca", ca))
+	}
+	alphabet = append(alphabet, runWith("hs", "gkey:3:-:0", "ca", "certs:1:1|certs:1:1|panic"), runWith("hs", "gkey:2:x:0", "ca", "certs:1:1|certs:1:1"), runWith("hs", "gkey:2:-:1", "ca", "certs:1:1|certs:1:1"))
 	// client claims of every kind
 	for _, c := range []string{"ff", "t2s", "sudo", "ver+user", "exts", "sig", "ff+t2s+sudo+ver+user+exts+sig"} {
 		alphabet = append(alphabet, runWith("cl", c))
